@@ -204,25 +204,24 @@ C06_TARGETS(C06_CHK, C06_CHK)
 #ifdef C06_PROBE_TARGET
 // ---- PROBE mode: instantiate the form(s) for one target type; compiles <=> well-formed on this tree -----------------------------
 typedef target<C06_PROBE_TARGET>::type ProbeU;
+template <class U, int F> void probe_one(std::true_type) { xtl::any q; Sink s; form<F>::template run<U>(q, s); }
+template <class U, int F> void probe_one(std::false_type) {}   // a by-value form of an array / function type: not a library matter
+template <int F> void probe() { probe_one<ProbeU, F>(std::integral_constant<bool, (F < F_FIRST_BY_VALUE) || plain_object<ProbeU>::value>()); }
+void probe_all()
+{
 #ifdef C06_PROBE_FORM
-template void form<C06_PROBE_FORM>::run<ProbeU>(xtl::any&, Sink&);
+    probe<C06_PROBE_FORM>();
 #else
-template void form<F_P>::run<ProbeU>(xtl::any&, Sink&);
-template void form<F_PC>::run<ProbeU>(xtl::any&, Sink&);
-template void form<F_PK>::run<ProbeU>(xtl::any&, Sink&);
-template void form<F_PNULL>::run<ProbeU>(xtl::any&, Sink&);
-template void form<F_PCNULL>::run<ProbeU>(xtl::any&, Sink&);
-template void form<F_R>::run<ProbeU>(xtl::any&, Sink&);
-template void form<F_CR>::run<ProbeU>(xtl::any&, Sink&);
-template void form<F_CCR>::run<ProbeU>(xtl::any&, Sink&);
-template void form<F_RR>::run<ProbeU>(xtl::any&, Sink&);
-template void form<F_RCR>::run<ProbeU>(xtl::any&, Sink&);
+    probe<F_P>(); probe<F_PC>(); probe<F_PK>(); probe<F_PNULL>(); probe<F_PCNULL>(); probe<F_R>(); probe<F_CR>(); probe<F_CCR>(); probe<F_RR>(); probe<F_RCR>();
+    probe<F_V>(); probe<F_CV>(); probe<F_RV>();
 #endif
+}
 
 #else
 // ---- the harness -----------------------------------------------------------------------------------------------------------------
 #include "report.hpp"
 
+#include <cxxabi.h>
 #include <string>
 #if __cplusplus >= 201703L
 #include <any>
@@ -405,10 +404,7 @@ struct Judge
     std::uintptr_t first_addr = 0; bool have_addr = false;
     std::string where(int f) const
     {
-        std::string t = form_text(f);
-        size_t p = t.find('T');
-        t = t.substr(0, p) + target_text + t.substr(p + 1);
-        return std::string("an any built from ") + src_text + " (it " + (empty ? "is empty" : std::string("holds the decayed type ") + stored_text) + "; route: " + route_text(route) + "): " + t + " with T = " + target_text + " ";
+        return std::string("an any built from ") + src_text + " (it " + (empty ? "is empty" : std::string("holds the decayed type ") + stored_text) + "; route: " + route_text(route) + "): " + form_text(f) + " [with T = " + target_text + "] ";
     }
     void judge(int f, const Sink& s)
     {
@@ -465,9 +461,13 @@ static void one_target(xtl::any& q, int route, const void* stored_bytes, const c
     typedef typename Src::stored Stored;
     // THE RULE: any_cast<T> succeeds only for exactly the stored decayed type
     const bool expect = !Src::empty && std::is_same<Stored, typename std::remove_cv<typename std::remove_reference<U>::type>::type>::value;
+#ifdef C06_STD_ANY
     if (std_holds != expect)
         report(F_P, "harness", std::string("std::any disagrees with the computed rule for source ") + Src::text() + " and target " + target<ID>::name());
     else ++g_std_agree;
+#else
+    (void)std_holds;
+#endif
     Judge j{Src::text(), stored_text, route, target<ID>::name(), expect, Src::empty, stored_bytes, size_of_stored<Stored>::v, &eq_bytes<Stored>};
     all_forms<U, ID>(q, j, std::make_integer_sequence<int, F_COUNT>());
     if (vf::take_asan()) vf::violation("C06/cast-target/asan", j.where(F_P) + ": AddressSanitizer report while casting", replay_args());
@@ -505,7 +505,14 @@ static void one_source()
     typedef source<S> Src;
     typedef typename Src::stored Stored;
     holder<Src, Stored> expected;
-    const std::string stored_text = Src::empty ? "void" : typeid(Stored).name();
+    std::string stored_text = "void";
+    if (!Src::empty)
+    {
+        int st = 0;
+        char* dn = abi::__cxa_demangle(typeid(Stored).name(), nullptr, nullptr, &st);
+        stored_text = (st == 0 && dn) ? dn : typeid(Stored).name();
+        std::free(dn);
+    }
     for (int route = 0; route < NROUTES; ++route)
     {
         Built<xtl::any, Src> world(route);
@@ -537,15 +544,16 @@ int main(int argc, char** argv)
     all_sources(std::make_integer_sequence<int, NSOURCES>());
     int exotic = 0, skipped_pairs = 0;
     std::string skipped;
-    for (int id = 0; id < C06_NTARGETS; ++id) for (int f = 0; f < F_FIRST_BY_VALUE; ++f) if (!cap(id, f)) { ++skipped_pairs; }
-#define C06_CNT(ID, ...) ++exotic; { int n = 0; for (int f = 0; f < F_FIRST_BY_VALUE; ++f) if (!cap(ID, f)) ++n; if (n) skipped += std::string(skipped.empty() ? "" : ", ") + #__VA_ARGS__ + " (" + str(n) + " form(s))"; }
-#define C06_NOP(ID, ...)
-    C06_TARGETS(C06_NOP, C06_CNT)
+#define C06_CNT(ID, ...) { if (target<ID>::exotic) ++exotic; std::string fs; for (int f = 0; f < (target<ID>::exotic ? F_FIRST_BY_VALUE : F_COUNT); ++f) if (!cap(ID, f)) { ++skipped_pairs; fs += std::string(fs.empty() ? "" : ",") + form_id(f); } \
+        if (!fs.empty()) skipped += std::string(skipped.empty() ? "" : "; ") + #__VA_ARGS__ + " [" + fs + "]"; }
+    C06_TARGETS(C06_CNT, C06_CNT)
     vf::stat("cast_target_evaluations", g_evals);
     vf::stat("transitions", g_evals);
     vf::stat("traces_validated_against_impl", g_evals);
     vf::stat("cast_target_expected_successes", g_expected_success);
+#ifdef C06_STD_ANY
     vf::stat("cast_target_std_any_agreements", g_std_agree);
+#endif
     vf::smax("cast_target_types", C06_NTARGETS);
     vf::smax("cast_target_array_or_function_types", exotic);
     vf::smax("cast_source_kinds", NSOURCES);
